@@ -238,11 +238,13 @@ func snap(v avfs.VFS, p string, withTimes bool, n *int) string {
 	m := fi.Mode()
 	out := p + ":"
 	st := v.ToSysStat(fi)
-	own := strconv.Itoa(st.Uid()) + "." + strconv.Itoa(st.Gid())
-	perm := strconv.FormatUint(uint64(m&(fs.ModePerm|fs.ModeSetuid|fs.ModeSetgid|fs.ModeSticky)), 8)
+	// fixed-width octal keeps symbolic owners, modes and times symbolic (no
+	// concretisation of the value while rendering)
+	own := Oct(uint64(st.Uid()), 22) + "." + Oct(uint64(st.Gid()), 22)
+	perm := Oct(uint64(m&(fs.ModePerm|fs.ModeSetuid|fs.ModeSetgid|fs.ModeSticky)), 11)
 	tm := ""
 	if withTimes {
-		tm = "@" + strconv.FormatInt(fi.ModTime().UnixNano(), 10)
+		tm = "@" + Oct(uint64(fi.ModTime().UnixNano()), 22)
 	}
 	switch {
 	case m&fs.ModeSymlink != 0:
@@ -273,6 +275,16 @@ func snap(v avfs.VFS, p string, withTimes bool, n *int) string {
 		}
 		return out + "F" + perm + "," + own + ",n" + strconv.FormatUint(st.Nlink(), 10) + ",s" + strconv.FormatInt(fi.Size(), 10) + tm + "=" + strconv.Itoa(len(content)) + ":" + content + ";"
 	}
+}
+
+// Oct renders x as exactly digits octal digits.
+func Oct(x uint64, digits int) string {
+	b := make([]byte, digits)
+	for i := digits - 1; i >= 0; i-- {
+		b[i] = '0' + byte(x&7)
+		x >>= 3
+	}
+	return string(b)
 }
 
 // WrapOver wraps an existing base in the wrapper of the given kind.
